@@ -10,7 +10,8 @@ from harness import core, vloop
 
 LEVEL = "Lean theorems c07_* (model = history specification, independence, fan-out) + differential correspondence"
 IDS = [1, 2, 3, 0x7FFF, 0xFFFE, 0xFFFF]
-ADDRS = [("10.0.0.%d" % i, 30490) for i in range(1, 6)]
+# senders: two pairs share a host and differ in the port only; an IPv6 pair differs in the scope id only
+ADDRS = [("10.0.0.1", 30490), ("10.0.0.1", 30491), ("10.0.0.2", 30490), ("fe80::7", 30490, 0, 1), ("fe80::7", 30490, 0, 2)]
 
 
 def run_impl(hist):
